@@ -341,6 +341,20 @@ static bool dispatch(const std::string& scn, const std::string& el, size_t p)
 	else if (scn == "hmm") { if (n) scn_hmm<HMMapT<EN, HTd<EN>>, EN, EN>(p); else scn_hmm<HMMapT<EC, HTd<EC>>, EC, EC>(p); }
 	else if (scn == "tset") { if (n) scn_tset<TreeSet<EN, TTs<EN>, kit::MM>, EN>(p); else scn_tset<TreeSet<EC, TTs<EC>, kit::MM>, EC>(p); }
 	else if (scn == "tsetf") { if (n) scn_tset<TreeSet<EN, TTf<EN>, kit::MM>, EN>(p); else scn_tset<TreeSet<EC, TTf<EC>, kit::MM>, EC>(p); }
+	else if (scn == "tsmall")
+	{	// tiny nodes, one block per pool buffer, no cache: every node is its own block, so a read of a freed node is a heap
+		// use-after-free that ASan sees (root collapse in pvRebalance, fix c72d55b); inserts ascending, removes from the front
+		typedef TreeSet<EN, TreeTraits<EN, false, TreeNode<2, 1, MemPoolParams<1, 0>>>, kit::MM> TS;
+		std::vector<EN> pool; pool.reserve(64);
+		G([&] { for (size_t i = 0; i < p + 2; ++i) pool.emplace_back(int64_t(i + 1)); });
+		if (pool.size() < p + 2) return true;
+		TS s(TS::TreeTraits(), kit::MM(1));
+		G([&] { for (size_t i = 0; i < p; ++i) s.Insert(pool[i]); });
+		for (size_t i = 0; i < p / 2 + 1; ++i) G([&] { if (s.GetCount() > 0) s.Remove(s.GetBegin()); });
+		G([&] { TS c(s); while (c.GetCount() > 0) c.Remove(std::prev(c.GetEnd())); });
+		G([&] { s.Insert(pool[p + 1]); });
+		while (s.GetCount() > 0) s.Remove(s.GetBegin());
+	}
 	else if (scn == "tmap") { if (n) scn_map<TreeMap<EN, EN, TTs<EN>, kit::MM>, EN, EN, TTs<EN>>(p); else scn_map<TreeMap<EC, EC, TTs<EC>, kit::MM>, EC, EC, TTs<EC>>(p); }
 	else if (scn == "pool")
 	{
